@@ -438,6 +438,10 @@ impl<T: ClusterKey> TopologyManager<T> {
             self.node_heartbeats.insert(*peer_id, now);
         }
 
+        // The sender's replica lists reflect the members the sender knew; ours must
+        // follow from the members we now know (which always include ourselves)
+        self.recalculate_partition_assignments();
+
         info!("updated partition replica assignments from remote information");
     }
 
